@@ -48,6 +48,7 @@ func (css *CompactShareSplitter) WriteTx(tx []byte) error {
 		return fmt.Errorf("included Tx in mem-pool that can not be encoded %v", tx)
 	}
 
+	css.reopen()
 	startShare := len(css.shares)
 
 	if err := css.write(rawData); err != nil {
@@ -61,13 +62,7 @@ func (css *CompactShareSplitter) WriteTx(tx []byte) error {
 
 // write adds the delimited data to the underlying compact shares.
 func (css *CompactShareSplitter) write(rawData []byte) error {
-	if css.done {
-		// remove the last element
-		if !css.shareBuilder.IsEmptyShare() {
-			css.shares = css.shares[:len(css.shares)-1]
-		}
-		css.done = false
-	}
+	css.reopen()
 
 	if err := css.shareBuilder.MaybeWriteReservedBytes(); err != nil {
 		return err
@@ -91,6 +86,18 @@ func (css *CompactShareSplitter) write(rawData []byte) error {
 		}
 	}
 	return nil
+}
+
+// reopen removes the zero padded copy of the pending share that Export
+// appended, so that writing continues in the pending share.
+func (css *CompactShareSplitter) reopen() {
+	if css.done {
+		// remove the last element
+		if !css.shareBuilder.IsEmptyShare() {
+			css.shares = css.shares[:len(css.shares)-1]
+		}
+		css.done = false
+	}
 }
 
 // stackPending will build & add the pending share to accumulated shares
@@ -120,10 +127,14 @@ func (css *CompactShareSplitter) Export() ([]Share, error) {
 	var bytesOfPadding int
 	// add the pending share to the current shares before returning
 	if !css.shareBuilder.IsEmptyShare() {
-		bytesOfPadding = css.shareBuilder.ZeroPadIfNecessary()
-		if err := css.stackPending(); err != nil {
+		// pad a copy: the pending share stays open for later writes
+		var padded []byte
+		padded, bytesOfPadding = zeroPadIfNecessary(append([]byte(nil), css.shareBuilder.rawShareData...), ShareSize)
+		paddedShare, err := NewShare(padded)
+		if err != nil {
 			return []Share{}, err
 		}
+		css.shares = append(css.shares, *paddedShare)
 	}
 
 	sequenceLen := css.sequenceLen(bytesOfPadding)
